@@ -389,12 +389,16 @@ def rule_u4(ctx):
         ok = False
         for bb, blk in enumerate(body.blocks):
             for st in blk["stmts"]:
-                if st["k"] == "assign" and st["rv"]["k"] == "binop" and st["rv"]["op"] == "Eq":
+                if st["k"] == "assign" and st["rv"]["k"] == "binop" and st["rv"]["op"] in ("Eq", "Ne"):
                     lo = {r for (r, p) in body.trace_operand(st["rv"]["l"])}
                     ro = {r for (r, p) in body.trace_operand(st["rv"]["r"])}
                     if {("arg", a)} <= lo | ro and {("arg", b_)} <= lo | ro:
                         builder_calls = [x for x, t in body.calls() if (mir.callee(t) or "").startswith("circuit::CircuitBuilder::push_")]
-                        if all(body.dominates(bb, x) for x in builder_calls):
+                        # on the edge on which the operands are equal no builder call is reachable any more (`if x == y { return }`
+                        # as well as `if x != y { .. gates .. } else { (x, y) }`)
+                        eq_edges = mir.equality_edges(body, st)
+                        after_eq = set(body.reachable([s_ for (_, s_) in eq_edges])) if eq_edges else None
+                        if all(body.dominates(bb, x) for x in builder_calls) and after_eq is not None and not (after_eq & set(builder_calls)):
                             ok = True
         if ok:
             res.ok({"function": fid, "verdict": "equal operands are returned before any gate request"})
